@@ -219,6 +219,8 @@ pub enum Op {
     FillSpare,
     FillSpareWith,
     Extend(u32, Hint),
+    /// `(buffer, Vec<()>).extend(pairs)`: std's tuple Extend, which goes through `extend_reserve` / `extend_one`
+    ExtendPairs(u32, Hint),
     ExtendFromSlice(u32),
     MakeContiguous,
     Drain(RangeSpec, Vec<Step>, End),
@@ -251,6 +253,8 @@ pub enum Op {
     /// drop the buffer, build a new one from an array / iterator of m fresh elements
     FromArray(u32),
     FromIter(u32, Hint),
+    /// `iter.unzip::<_, _, CircularBuffer, Vec<()>>()`: Default + tuple Extend
+    Unzip(u32, Hint),
     /// move the buffer value to a new heap location
     MoveBuf,
     /// drop the buffer and continue with a fresh empty one
@@ -278,6 +282,8 @@ impl Op {
             Op::FillSpare => "fill_spare",
             Op::FillSpareWith => "fill_spare_with",
             Op::Extend(..) => "extend",
+            Op::ExtendPairs(..) => "extend_pairs",
+            Op::Unzip(..) => "unzip",
             Op::ExtendFromSlice(_) => "extend_from_slice",
             Op::MakeContiguous => "make_contiguous",
             Op::Drain(_, _, End::Drop) => "drain",
@@ -361,6 +367,10 @@ pub struct Case {
     pub ops: Vec<Op>,
     /// seed for the choices the interpreter makes itself (drop order at the end, poison picks)
     pub salt: u32,
+    /// run every crate call from inside a destructor while the thread is unwinding from an unrelated panic
+    /// (`std::thread::panicking()` is then true throughout)
+    #[serde(default)]
+    pub unwinding: bool,
 }
 
 impl Case {
@@ -376,6 +386,7 @@ impl Case {
             fault_pick: None,
             ops,
             salt: 0,
+            unwinding: false,
         }
     }
     pub fn to_json(&self) -> String {
@@ -436,6 +447,8 @@ pub fn render_op(op: &Op) -> String {
         | Op::TruncateFront(i) | Op::Read(i) => format!("{}({i})", op.name()),
         Op::Swap(i, j) => format!("swap({i},{j})"),
         Op::Extend(n, h) => format!("extend(iter of {n}, hint {h:?})"),
+        Op::ExtendPairs(n, h) => format!("(buf, vec).extend(pairs of {n}, hint {h:?})"),
+        Op::Unzip(n, h) => format!("unzip({n},{h:?})"),
         Op::ExtendFromSlice(n) => format!("extend_from_slice(len {n})"),
         Op::Drain(r, st, e) => format!("drain({r})[{}]{}", render_steps(st), if *e == End::Forget { " forget" } else { " drop" }),
         Op::CloneFrom(s, l) => format!("clone_from(src start={s} len={l})"),
